@@ -33,7 +33,7 @@ theorem atol_incommensurable_false (fixed : Bool) (act des : Qty K) (rtol : Tol 
     (u : TUnit K) (hd : des.unit.dim = act.unit.dim) (hr : rtolDim rtol = Dim.one)
     (h : u.dim ≠ act.unit.dim) : allcloseQ fixed act des rtol (.qty x u) = .ok false := by
   have h' : (u.dim != act.unit.dim) = true := by simpa using h
-  simp [allcloseQ, inUnits, hd, hr, atolUnit, h']
+  simp [allcloseQ, inUnits, hd, hr, atolInActualUnit, h']
 
 /-- an `rtol` with a dimension raises `RuntimeError` (once `desired` is known to be
     commensurable) -/
